@@ -602,7 +602,7 @@ func TestVerifC17Compile(t *testing.T) {
 	var ops []string
 	nz := VEnvInt("VERIF_C17_COMPILE_N", 120)
 	if VThorough() {
-		nz = VEnvInt("VERIF_C17_COMPILE_N", 1600)
+		nz = VEnvInt("VERIF_C17_COMPILE_N", 1200)
 	}
 	nz /= shards
 	max := consts.MaxMatchSetLen
@@ -644,7 +644,7 @@ func TestVerifC17Compile(t *testing.T) {
 
 	np := VEnvInt("VERIF_C17_PIPELINE_N", 600)
 	if VThorough() {
-		np = VEnvInt("VERIF_C17_PIPELINE_N", 12000)
+		np = VEnvInt("VERIF_C17_PIPELINE_N", 10000)
 	}
 	np /= shards
 	if shard == 0 {
